@@ -7,6 +7,7 @@ import (
 	"os"
 	"runtime/debug"
 	"syscall"
+	"time"
 )
 
 // Run is the process shell: the instrumenter renames the program's main to
@@ -21,6 +22,7 @@ func Run(main func()) {
 	// runaway allocation becomes a fast "out of memory" crash instead of eating the host
 	// (the cooperative heap check in tick() normally fires first; this is the backstop)
 	_ = syscall.Setrlimit(syscall.RLIMIT_AS, &syscall.Rlimit{Cur: 3 << 30, Max: 3 << 30})
+	go cpuWatchdog()
 	raw, err := io.ReadAll(os.Stdin)
 	if err != nil {
 		fmt.Fprintln(os.Stderr, "simrt: cannot read spec:", err)
@@ -44,6 +46,30 @@ func Run(main func()) {
 	}()
 	main()
 	finish(0, true)
+}
+
+// cpuBudget: processor time one simulated run may use (ordinary runs need 5-30 ms). Computation that neither does
+// I/O nor iterates a map is invisible to the tick budget; this is the bound for it. Processor time, not wall-clock
+// time: a loaded machine does not change the verdict. (The orchestrator's 20 s wall-clock watchdog stays behind it.)
+const cpuBudget = 5 * time.Second
+
+func cpuWatchdog() {
+	for {
+		time.Sleep(25 * time.Millisecond)
+		var ru syscall.Rusage
+		if syscall.Getrusage(syscall.RUSAGE_SELF, &ru) != nil {
+			continue
+		}
+		cpu := time.Duration(ru.Utime.Nano() + ru.Stime.Nano())
+		if cpu > cpuBudget {
+			// no access to the world from this goroutine: a minimal record, written directly
+			if out := os.NewFile(3, "result"); out != nil {
+				_, _ = out.Write([]byte(`{"exit":97,"overrun":true,"overrun_kind":"cpu","steps":0,"ticks":0,"fs":[]}`))
+				_ = out.Close()
+			}
+			os.Exit(97)
+		}
+	}
 }
 
 // Exit replaces os.Exit.
@@ -74,3 +100,10 @@ func finish(code int, returned bool) {
 	}
 	os.Exit(code)
 }
+
+// LoadForStubCheck initialises the simulated world from a spec inside another process (the orchestrator's
+// differential check of this shim against the real operating system). Not used by instrumented programs.
+func LoadForStubCheck(s Spec) { w = &world{}; w.load(s) }
+
+// SnapshotForStubCheck returns the simulated file system as it stands.
+func SnapshotForStubCheck() []Node { return w.snapshot() }
